@@ -54,6 +54,7 @@ def make_case(rng, i):
     spec = gen.gen_spec(rng, prof)
     listeners = [p for p in spec["providers"] if p not in ("sm", "model")]
     spec["eq_listeners"] = rng.choice([False, False, False, False, False, True, True, "unhashable"])
+    spec["falsy_listeners"] = rng.choice([None, None, None, None, "len", "bool"])
     # multi-provider guards / validators
     others = [p for p in spec["providers"] if p != "sm"]
     unless_names = {g["name"] for t in spec["transitions"] for g in t["guards"] if g["kind"] == "unless"}
